@@ -55,13 +55,17 @@ def decU32 : Dec UInt32 := fun d =>
 def encBin (v : Bytes) : Bytes :=
   UInt8.ofNat (v.length / 256) :: UInt8.ofNat (v.length % 256) :: v
 
+/-- the two-byte length prefix as `bindata.UnmarshalBinary` reads it -/
+def binLen (d : Bytes) : Nat :=
+  match decU16 d with
+  | .ok v _ => v.toNat
+  | _ => 0                             -- `_ = length.UnmarshalBinary(data)`: error ignored, length stays 0
+
 /-- `bindata.UnmarshalBinary` then `width()`. `old` is the destination's previous content:
 for a zero length prefix Go returns without touching the destination, so both the value and
 the width `2 + len(*v)` are those of the old content. -/
 def decBin (old : Bytes) : Dec Bytes := fun d =>
-  let length : Nat := match decU16 d with
-    | .ok v _ => v.toNat
-    | _ => 0                           -- `_ = length.UnmarshalBinary(data)`: error ignored, length stays 0
+  let length : Nat := binLen d
   if d.length < length + 2 then .err .missing
   else if length = 0 then .ok old (2 + old.length)
   else .ok ((d.drop 2).take length) (2 + length)   -- make + copy(data[2:int(length)+2])
@@ -87,10 +91,15 @@ def decPair : Dec (Bytes × Bytes) := fun d =>
 
 /-! ## vbint : variable byte integer -/
 
-/-- `vbint.fill`: the loop `for { b := x % 128; x /= 128; if x > 0 { b |= 128 }; …; if x == 0 break }`. -/
-def encVb (x : Nat) : Bytes :=
-  if h : x < 128 then [UInt8.ofNat x] else UInt8.ofNat (x % 128 + 128) :: encVb (x / 128)
-decreasing_by omega
+/-- `vbint.fill`: the loop `for { b := x % 128; x /= 128; if x > 0 { b |= 128 }; …; if x == 0 break }`.
+Structural recursion on a fuel argument (so that the kernel can evaluate it); `encVb_eq` in
+`Proofs.Wire` is the loop equation without fuel. -/
+def encVbAux : Nat → Nat → Bytes
+  | 0, x => [UInt8.ofNat x]
+  | fuel + 1, x =>
+    if x < 128 then [UInt8.ofNat x] else UInt8.ofNat (x % 128 + 128) :: encVbAux fuel (x / 128)
+
+def encVb (x : Nat) : Bytes := encVbAux x x
 
 /-- `vbint.width()` = `fill(_LEN, 0)`. -/
 def vbWidth (x : Nat) : Nat := (encVb x).length
